@@ -57,7 +57,7 @@ def fail(oracle, detail, msg):
 
 def nontrivial(res):
     p = res["probes"]
-    return p.get("server_hits", 0) > 0 and (sum(res["faults"].values()) > 0 or p.get("restarts", 0) > 0)
+    return (p.get("server_hits", 0) > 0 and (sum(res["faults"].values()) > 0 or p.get("restarts", 0) > 0)) or p.get("histories", 0) > 0
 
 
 # ------------------------------------------------------------------------------------------------
@@ -162,8 +162,22 @@ def gen_db(cfg, tier):
         for _ in range(n_out):
             h = r.getrandbits(256).to_bytes(32, "big")
             m = r.random()
-            if m < 0.6:
+            if m < 0.5:
                 spk = r.choice([tm.spk_p2pkh(h[:20]), tm.spk_p2sh(h[:20]), tm.spk_p2wpkh(h[:20]), tm.spk_p2wsh(h), tm.spk_p2tr(h)])
+            elif m < 0.62:
+                # canonical scripts that merely *resemble* a standard template: extended, prefixed, wrong hash length
+                base = r.choice([tm.spk_p2pkh(h[:20]), tm.spk_p2sh(h[:20]), tm.spk_p2wpkh(h[:20]), tm.spk_p2wsh(h), tm.spk_p2tr(h)])
+                form = r.randrange(4)
+                extra = r.choice([b"\x61", b"\x51", b"\x75\x51", tm.push(h[:3]), b"\x00"])
+                if form == 0:
+                    spk = base + extra
+                elif form == 1:
+                    spk = extra + base
+                elif form == 2:
+                    spk = r.choice([b"\xa9" + tm.push(h[:19]) + b"\x87", b"\xa9" + tm.push(h[:21]) + b"\x87", b"\x00" + tm.push(h[:19]), b"\x00" + tm.push(h[:31]), b"\x51" + tm.push(h[:31]), b"\x52" + tm.push(h),
+                                    b"\x76\xa9" + tm.push(h[:21]) + b"\x88\xac", b"\x76\xa9" + tm.push(h[:20]) + b"\x88\xad"])
+                else:
+                    spk = base + base
             else:
                 spk, _c = gen_script(r, r.randrange(0, 4), canonical=not noncanon)
             outs.append({"amount": r.choice([0, 1, 546, 2**32 - 1, 2**32, 21 * 10**14, 2**63, 2**64 - 1, r.getrandbits(48)]), "spk": spk})
@@ -589,6 +603,88 @@ def _execute(plan, w, tr):
                 fail("F4", "load_of_intact_dump_failed", f"load_cache of a file written by dump_cache without disk faults failed: {out}")
             w.check_cache("after load_cache")
             tr.state("load", out.split(":")[0], name in w.torn_files)
+        elif op == "history":
+            # one Tx object (parsed from honest bytes or built through the API), a sequence of edits, and after every edit:
+            # id()/hash() equal the reference txid of the mirrored model, serialize() equals the reference serialisation
+            ent = w.db[st["tx"] % len(w.db)]
+            if not ent["canonical"]:
+                continue
+            model = tm.clone(ent["tx"])
+            segwit = ent["segwit"]
+            if not segwit:
+                for i_ in model["ins"]:
+                    i_["witness"] = []
+            try:
+                obj = build_through_api(model, segwit) if st.get("via_api") else Tx.parse(BytesIO(tm.ser_tx(model)), network="mainnet")
+            except SimDeadlock:
+                raise
+            except Exception as e:
+                fail("F2", "history_object_not_constructible", f"{type(e).__name__}: {e}")
+                continue
+            from buidl.timelock import Locktime, Sequence
+            from buidl.witness import Witness as _W
+
+            def check(label):
+                tr.oracle("F3_history")
+                try:
+                    got_id, got_hash, got_ser = obj.id(), obj.hash(), obj.serialize()
+                except SimDeadlock:
+                    raise
+                except Exception as e:
+                    fail("F3", "history_id_raised", f"id()/serialize() raised after {label}: {type(e).__name__}: {e}")
+                    return
+                want = tm.txid(model)
+                if got_id != want.hex() or got_hash != want:
+                    fail("F3", "txid_stale_or_wrong_after_" + label.split(":")[0], f"after {label} on one {'segwit' if segwit else 'legacy'} object id() is {got_id[:16]}.., the witness-stripped hash of the current state is {want.hex()[:16]}..")
+                want_ser = tm.ser_tx(model, witness=segwit)
+                if got_ser != want_ser:
+                    fail("F2", "serialize_after_" + label.split(":")[0], f"serialize() after {label} differs from the reference serialisation of the mirrored state")
+
+            check("construction")
+            tr.probe("histories")
+            for e in st["edits"]:
+                k = e["e"]
+                if k == "out_amount" and model["outs"]:
+                    j = e["j"] % len(model["outs"])
+                    model["outs"][j]["amount"] = e["v"]
+                    obj.tx_outs[j].amount = e["v"]
+                elif k == "out_remove" and len(model["outs"]) > 1:
+                    j = e["j"] % len(model["outs"])
+                    model["outs"].pop(j)
+                    obj.tx_outs.pop(j)
+                elif k == "out_append":
+                    spk = tm.spk_p2wpkh(bytes([e["j"] % 256]) * 20)
+                    model["outs"].append({"amount": e["v"], "spk": spk})
+                    obj.tx_outs.append(TxOut(e["v"], Script(script_commands(spk))))
+                elif k == "locktime":
+                    model["locktime"] = e["v"] % 2**32
+                    obj.locktime = Locktime(e["v"] % 2**32)
+                elif k == "version":
+                    model["version"] = e["v"] % 2**32
+                    obj.version = e["v"] % 2**32
+                elif k == "sequence":
+                    j = e["j"] % len(model["ins"])
+                    model["ins"][j]["sequence"] = e["v"] % 2**32
+                    obj.tx_ins[j].sequence = Sequence(e["v"] % 2**32)
+                elif k == "outpoint":
+                    j = e["j"] % len(model["ins"])
+                    model["ins"][j]["vout"] = e["v"] % 2**32
+                    obj.tx_ins[j].prev_index = e["v"] % 2**32
+                elif k == "script_sig":
+                    j = e["j"] % len(model["ins"])
+                    ss = tm.push(bytes([e["v"] % 256]) * (1 + e["v"] % 40))
+                    model["ins"][j]["script_sig"] = ss
+                    obj.tx_ins[j].script_sig = Script(script_commands(ss))
+                elif k == "witness" and segwit:
+                    j = e["j"] % len(model["ins"])
+                    items = [bytes([e["v"] % 256]) * (e["v"] % 70)]
+                    model["ins"][j]["witness"] = items
+                    obj.tx_ins[j].witness = _W(list(items))
+                else:
+                    continue
+                tr.fault("edit_" + k)
+                tr.ev("client", "edit", k)
+                check(k)
         elif op == "broadcast":
             # a transaction built through the API (constructors, no parsing), serialised, sent to the explorer, which parses it with
             # the reference parser: every field must arrive, and the bytes must be the canonical encoding of the model
@@ -677,8 +773,12 @@ def generate(ch, tier, prop):
                 steps.append({"op": "load"})
         elif r < 0.90:
             steps.append({"op": "restart"})
-        elif r < 0.95:
+        elif r < 0.93:
             steps.append({"op": "broadcast", "tx": ch.randrange(8), "net": ch.choice(["mainnet", "testnet", "signet"])})
+        elif r < 0.97:
+            steps.append({"op": "history", "tx": ch.randrange(8), "via_api": ch.chance(0.5),
+                          "edits": [{"e": ch.choice(["out_amount", "out_remove", "out_append", "locktime", "version", "sequence", "outpoint", "script_sig", "witness", "witness"]), "j": ch.randrange(8), "v": ch.choice([0, 1, 2**32 - 1, ch.getrandbits(40)])}
+                                    for _ in range(ch.randrange(1, 6))]})
         else:
             steps.append({"op": "load"})
     return {"db": db, "steps": steps}
